@@ -6,6 +6,14 @@ All of these expose generator APIs (`yield from store.get(k)`), so they are driv
 and overlap in time (a get issued while a put / flush / refresh is still in progress).
 `SoftTTLCache` and `CacheWarmer` additionally have real `handle_event` paths
 (`_sttl_refresh`, `cache_warm`) which the builders reach through the library's own events.
+
+Three kinds of builders:
+  * contention   : reasonable configurations under bursts (the original catalogue);
+  * degenerate   : operations that match NOTHING (missing keys, empty stores, empty key lists,
+                   empty queries / transactions) and structures of size one;
+  * proportions  : sibling parameters out of proportion (TTLs vs latencies, connection vs query
+                   latency, capacity 1).
+Structural counts (replicas, shards, tiers, keys) come from `p.count(i, default)`.
 """
 
 from __future__ import annotations
@@ -43,8 +51,9 @@ from happysimulator.components.datastore import (
 from hsverif.scenarios import Scenario, scenario
 from hsverif.scenarios._kit import P, Proc, ev, make_sim
 
-KEYS = ["a0", "h1", "m2", "q3", "x4", "k5"]
+KEYS = ["a0", "h1", "m2", "q3", "x4", "k5", "c6", "t7"]
 N_POLICIES = 9
+MISSING = "zz-missing"
 
 
 def _start(sim, procs, arrivals):
@@ -56,14 +65,22 @@ def _w(event) -> int:
     return event.context["metadata"]["worker"]
 
 
-def _policy(idx: int, p: P, seed: int, clock_entity):
-    """One of the nine eviction policies (TTL reads the *simulated* clock)."""
+def _keys(p: P, i: int = 2, default: int = 6, lo: int = 1) -> list[str]:
+    """The shared key set: its size is the i-th structural count."""
+    return KEYS[: p.count(i, default, lo=lo, hi=len(KEYS))]
+
+
+def _policy(idx: int, p: P, seed: int, clock_entity=None):
+    """One of the nine eviction policies.  TTL reads the *simulated* clock, either through an
+    explicit clock function or (clock_entity None) through the owning CachedStore's binding."""
     idx %= N_POLICIES
     if idx == 0:
         return LRUEviction()
     if idx == 1:
         return LFUEviction()
     if idx == 2:
+        if clock_entity is None:
+            return TTLEviction(ttl=p.lat(5) * 2)
         return TTLEviction(ttl=p.lat(5) * 2, clock_func=lambda: clock_entity.now.to_seconds())
     if idx == 3:
         return FIFOEviction()
@@ -105,20 +122,25 @@ class FlakyKV(KVStore):
         return (yield from super().delete(key))
 
 
+def _backing(p: P, keys, name="backing", fill=True, **kw):
+    kv = KVStore(name, read_latency=p.lat(0), write_latency=p.lat(1), delete_latency=p.lat(2), **kw)
+    if fill:
+        for j, k in enumerate(keys):
+            kv.put_sync(k, 100 + j)
+    return kv
+
+
 # ----------------------------------------------------------------------
 # KVStore
 
 
-@scenario("datastore.kvstore_contention", "datastore")
-def kvstore_contention(seed, params):
-    """Bounded KVStore: same-key puts / gets / deletes overlap, new keys force evictions."""
-    p = P(params, seed)
-    kv = KVStore("kv", read_latency=p.lat(0), write_latency=p.lat(1), delete_latency=p.lat(2), capacity=p.cap(2))
-    hold = p.hold()
+def _kv_body(kv, keys, hold):
+    def K(j):
+        return keys[j % len(keys)]
 
     def body(proc, event):
         i = _w(event)
-        k = KEYS[i % 2]
+        k = K(i % 2)
         if i % 4 == 0:
             yield from kv.put(k, i)
             v = yield from kv.get(k)
@@ -126,21 +148,44 @@ def kvstore_contention(seed, params):
         elif i % 4 == 1:
             v = yield from kv.get(k)
             yield hold
-            yield from kv.put(KEYS[2 + i % 4], i)  # new key: eviction when full
+            yield from kv.put(K(2 + i % 4), i)  # new key: eviction when full
             proc.log.append(("r", v))
         elif i % 4 == 2:
             yield from kv.put(k, -i)
             ok = yield from kv.delete(k)
-            proc.log.append(("d", ok))
+            ok2 = yield from kv.delete(k)  # already gone
+            proc.log.append(("d", ok, ok2))
         else:
             ok = yield from kv.delete(k)
             v = yield from kv.get(k)
+            v2 = yield from kv.get(MISSING)
             yield from kv.put(k, i)
-            proc.log.append(("dr", ok, v))
+            proc.log.append(("dr", ok, v, v2))
         proc.done += 1
 
+    return body
+
+
+@scenario("datastore.kvstore_contention", "datastore")
+def kvstore_contention(seed, params):
+    """Bounded KVStore: same-key puts / gets / deletes overlap, new keys force evictions."""
+    p = P(params, seed)
+    keys = _keys(p)
+    kv = KVStore("kv", read_latency=p.lat(0), write_latency=p.lat(1), delete_latency=p.lat(2), capacity=p.cap(2))
     arr = p.arrivals(8)
-    procs = [Proc(f"w{i}", body) for i in range(len(arr))]
+    procs = [Proc(f"w{i}", _kv_body(kv, keys, p.hold())) for i in range(len(arr))]
+    sim = make_sim([kv, *procs], p.end())
+    _start(sim, procs, arr)
+    return Scenario(sim, {"kv": kv}, "datastore", True, len(arr))
+
+
+@scenario("datastore.kvstore_capacity_one", "datastore")
+def kvstore_capacity_one(seed, params):
+    """capacity=1: every put of another key evicts; default delete_latency (= write latency)."""
+    p = P(params, seed)
+    kv = KVStore("kv", read_latency=p.lat(0), write_latency=p.lat(1), capacity=1)
+    arr = p.arrivals(6)
+    procs = [Proc(f"w{i}", _kv_body(kv, _keys(p, default=3), p.hold())) for i in range(len(arr))]
     sim = make_sim([kv, *procs], p.end())
     _start(sim, procs, arr)
     return Scenario(sim, {"kv": kv}, "datastore", True, len(arr))
@@ -150,10 +195,13 @@ def kvstore_contention(seed, params):
 # CachedStore
 
 
-def _cached_workload(cs, hold):
+def _cached_workload(cs, keys, hold):
+    def K(j):
+        return keys[j % len(keys)]
+
     def body(proc, event):
         i = _w(event)
-        k = KEYS[i % 3]
+        k = K(i % 3)
         if i % 5 == 0:
             yield from cs.put(k, i)
             v = yield from cs.get(k)
@@ -162,16 +210,19 @@ def _cached_workload(cs, hold):
             yield hold
             v = yield from cs.get(k)
         elif i % 5 == 2:
-            yield from cs.put(KEYS[3 + i % 3], i)  # other keys: evictions
-            v = yield from cs.get(KEYS[(i + 1) % 3])
+            yield from cs.put(K(3 + i % 3), i)  # other keys: evictions
+            v = yield from cs.get(K((i + 1) % 3))
         elif i % 5 == 3:
             v = yield from cs.delete(k)
             yield from cs.put(k, -i)
+            v = yield from cs.delete(MISSING)  # neither cached nor stored
         else:
             cs.invalidate(k)
+            cs.invalidate(MISSING)
             v = yield from cs.get(k)
             yield hold
-            v = yield from cs.get(KEYS[3 + i % 3])
+            v = yield from cs.get(MISSING)  # miss in cache and store
+            v = yield from cs.get(K(3 + i % 3))
         proc.log.append(v if isinstance(v, (int, bool)) or v is None else str(v))
         proc.done += 1
 
@@ -182,13 +233,37 @@ def _cached_workload(cs, hold):
 def cached_store_write_through(seed, params):
     """Write-through CachedStore over a slow KVStore; eviction policy = x.v mod 9 (all nine)."""
     p = P(params, seed)
-    kv = KVStore("backing", read_latency=p.lat(0), write_latency=p.lat(1), delete_latency=p.lat(2))
-    for j, k in enumerate(KEYS):
-        kv.put_sync(k, 100 + j)
+    keys = _keys(p)
+    kv = _backing(p, keys)
     pol = _policy(int(p.x("v", seed)), p, seed, kv)
     cs = CachedStore("cache", kv, cache_capacity=p.cap(2), eviction_policy=pol, cache_read_latency=p.lat(3), write_through=True)
     arr = p.arrivals(10)
-    procs = [Proc(f"w{i}", _cached_workload(cs, p.hold())) for i in range(len(arr))]
+    procs = [Proc(f"w{i}", _cached_workload(cs, keys, p.hold())) for i in range(len(arr))]
+    sim = make_sim([kv, cs, *procs], p.end())
+    _start(sim, procs, arr)
+    return Scenario(sim, {"cache": cs, "backing": kv}, "datastore", True, len(arr), notes=type(pol).__name__)
+
+
+@scenario("datastore.cached_store_capacity_one", "datastore")
+def cached_store_capacity_one(seed, params):
+    """cache_capacity=1 (every second key evicts), write-through or write-back by x.v parity,
+    TTL policy bound to the simulation clock by the store itself; flush() of a clean cache."""
+    p = P(params, seed)
+    v = int(p.x("v", seed))
+    keys = _keys(p, default=4)
+    kv = _backing(p, keys)
+    pol = _policy(v // 2, p, seed, None)
+    cs = CachedStore("cache", kv, cache_capacity=1, eviction_policy=pol, cache_read_latency=p.lat(3), write_through=(v % 2 == 0))
+    inner = _cached_workload(cs, keys, p.hold())
+
+    def body(proc, event):
+        n0 = yield from cs.flush()  # nothing dirty yet (or ever, when write-through)
+        yield from inner(proc, event)
+        n1 = yield from cs.flush()
+        proc.log.append((n0, n1))
+
+    arr = p.arrivals(8)
+    procs = [Proc(f"w{i}", body) for i in range(len(arr))]
     sim = make_sim([kv, cs, *procs], p.end())
     _start(sim, procs, arr)
     return Scenario(sim, {"cache": cs, "backing": kv}, "datastore", True, len(arr), notes=type(pol).__name__)
@@ -199,9 +274,8 @@ def cached_store_write_back(seed, params):
     """Write-back CachedStore (write_through=False) with a flusher steered by the WriteBack /
     WriteAround / WriteThrough policy objects of write_policies.py; flush() overlaps the writers."""
     p = P(params, seed)
-    kv = KVStore("backing", read_latency=p.lat(0), write_latency=p.lat(1), delete_latency=p.lat(2))
-    for j, k in enumerate(KEYS):
-        kv.put_sync(k, 100 + j)
+    keys = _keys(p)
+    kv = _backing(p, keys)
     pol = _policy(int(p.x("v", seed)) + 1, p, seed, kv)
     cs = CachedStore("cache", kv, cache_capacity=p.cap(2) + 1, eviction_policy=pol, cache_read_latency=p.lat(3), write_through=False)
     wb = WriteBack(flush_interval=p.lat(4) * 3, max_dirty=2)
@@ -210,19 +284,22 @@ def cached_store_write_back(seed, params):
     hold = p.hold()
     arr = p.arrivals(9)
 
+    def K(j):
+        return keys[j % len(keys)]
+
     def writer(proc, event):
         i = _w(event)
-        k = KEYS[(i // 3) % 2]  # write-back writers and the readers share a0/h1
+        k = K((i // 3) % 2)  # write-back writers and the readers share the first two keys
         if i % 3 == 0:  # write-back path
             yield from cs.put(k, i)
             wb.on_write(k, i)
             if wb.should_flush() and not wb.should_write_through():
-                keys = wb.get_keys_to_flush()
+                ks = wb.get_keys_to_flush()
                 n = yield from cs.flush()  # overlaps the other writers
-                wb.on_flush(keys)
+                wb.on_flush(ks)
                 proc.log.append(("flush", n))
         elif i % 3 == 1:  # write-around path: store first, then invalidate the cached copy
-            k = KEYS[4 + (i // 3) % 2]
+            k = K(4 + (i // 3) % 2)
             yield from kv.put(k, i)
             wa.on_write(k, i)
             for kk in wa.get_keys_to_invalidate():
@@ -238,6 +315,7 @@ def cached_store_write_back(seed, params):
         proc.done += 1
 
     def flusher(proc, event):
+        n = yield from cs.flush()  # nothing dirty at the very start
         for _ in range(3):
             yield wb.flush_interval
             n = yield from cs.flush()
@@ -257,45 +335,103 @@ def cached_store_write_back(seed, params):
 # SoftTTLCache
 
 
+def _sttl_body(c, keys, soft_s, hard_s, exact_soft=None):
+    def K(j):
+        return keys[j % len(keys)]
+
+    def body(proc, event):
+        i = _w(event)
+        k = K(i % 2)
+        v0 = yield from c.get(k)  # hard miss (several workers on the same key)
+        v1 = yield from c.get(k)  # fresh hit
+        yield soft_s * 1.5
+        v2 = yield from c.get(k)  # stale hit -> background refresh
+        if i % 3 == 2:
+            c.invalidate(k)  # entry dropped while its refresh is in flight -> coalesced hard miss
+            v2 = yield from c.get(k)
+        v3 = yield from c.get(K(2 + i % 3))  # other keys: LRU eviction, maybe of a refreshing key
+        v4 = yield from c.get(k)  # refresh in flight: stale hit again or coalesced miss
+        vm = yield from c.get(MISSING)  # never in the backing store
+        if i % 3 == 0:
+            yield from c.put(k, i)
+            if exact_soft is not None:
+                yield exact_soft  # the entry is now EXACTLY soft_ttl old: the fresh/stale boundary
+                vm = (vm, (yield from c.get(k)))
+        elif i % 3 == 1:
+            c.invalidate(k)
+            c.invalidate(MISSING)
+        yield hard_s * 1.1
+        v5 = yield from c.get(k)  # expired
+        proc.log.append([v0, v1, v2, v3, v4, vm, v5])
+        proc.done += 1
+
+    return body
+
+
 @scenario("datastore.soft_ttl_refresh", "datastore")
 def soft_ttl_refresh(seed, params):
     """Readers hit fresh / stale / expired entries; stale hits start background refreshes
     (`_sttl_refresh` events handled by the cache itself) which later readers coalesce on."""
     p = P(params, seed)
+    keys = _keys(p)
     kv = KVStore("backing", read_latency=p.lat(0) * 2, write_latency=p.lat(1))
-    for j, k in enumerate(KEYS):
+    for j, k in enumerate(keys):
         kv.put_sync(k, 100 + j)
     soft = p.lat(2)
     crl = p.lat(3)
     hard = soft * 3 + crl * 4 + kv.read_latency * 2  # wide enough for a stale window after one cached read
     c = SoftTTLCache("sttl", kv, soft_ttl=soft, hard_ttl=hard, cache_capacity=p.cap(2) + 1, cache_read_latency=crl)
-
-    def body(proc, event):
-        i = _w(event)
-        k = KEYS[i % 2]
-        v0 = yield from c.get(k)  # hard miss (several workers on the same key)
-        v1 = yield from c.get(k)  # fresh hit
-        yield soft * 1.5
-        v2 = yield from c.get(k)  # stale hit -> background refresh
-        if i % 3 == 2:
-            c.invalidate(k)  # entry dropped while its refresh is in flight -> coalesced hard miss
-            v2 = yield from c.get(k)
-        v3 = yield from c.get(KEYS[2 + i % 3])  # other keys: LRU eviction, maybe of a refreshing key
-        v4 = yield from c.get(k)  # refresh in flight: stale hit again or coalesced miss
-        if i % 3 == 0:
-            yield from c.put(k, i)
-        elif i % 3 == 1:
-            c.invalidate(k)
-        yield hard * 1.1
-        v5 = yield from c.get(k)  # expired
-        proc.log.append([v0, v1, v2, v3, v4, v5])
-        proc.done += 1
-
     arr = p.arrivals(6)
-    procs = [Proc(f"w{i}", body) for i in range(len(arr))]
+    procs = [Proc(f"w{i}", _sttl_body(c, keys, soft, hard)) for i in range(len(arr))]
     sim = make_sim([kv, c, *procs], p.end())
     _start(sim, procs, arr)
     return Scenario(sim, {"sttl": c, "backing": kv}, "datastore", True, len(arr))
+
+
+def _sttl_proportion(name, doc, ttls):
+    @scenario(name, "datastore")
+    def builder(seed, params):
+        p = P(params, seed)
+        keys = _keys(p, default=4)
+        kv = KVStore("backing", read_latency=p.lat(0), write_latency=p.lat(1))
+        for j, k in enumerate(keys):
+            kv.put_sync(k, 100 + j)
+        crl = p.lat(3)
+        soft, hard = ttls(p, kv.read_latency, crl)
+        cap = None if int(p.x("v", seed)) % 3 == 0 else 1 + int(p.x("v", seed)) % 2  # unbounded, 1 or 2
+        c = SoftTTLCache("sttl", kv, soft_ttl=soft, hard_ttl=hard, cache_capacity=cap, cache_read_latency=crl)
+        arr = p.arrivals(5)
+        # the workers pace themselves on the read latency (the TTLs may be next to nothing)
+        procs = [Proc(f"w{i}", _sttl_body(c, keys, max(soft, kv.read_latency), max(hard, crl), exact_soft=soft)) for i in range(len(arr))]
+        sim = make_sim([kv, c, *procs], p.end())
+        _start(sim, procs, arr)
+        return Scenario(sim, {"sttl": c, "backing": kv}, "datastore", True, len(arr), notes=f"soft={soft} hard={hard}")
+
+    builder.__doc__ = doc
+    return builder
+
+
+_sttl_proportion(
+    "datastore.soft_ttl_equals_hard_ttl",
+    "soft_ttl == hard_ttl: there is no stale window, an entry goes from fresh to expired.",
+    lambda p, rl, crl: (p.lat(2) + crl, p.lat(2) + crl),
+)
+_sttl_proportion(
+    "datastore.soft_ttl_just_below_hard_ttl",
+    "hard_ttl = soft_ttl + 1 ns: a stale window one nanosecond wide.",
+    lambda p, rl, crl: (p.lat(2) + crl, p.lat(2) + crl + 1e-9),
+)
+_sttl_proportion(
+    "datastore.soft_ttl_below_read_latency",
+    "soft_ttl (1 ns) far below the backing read latency: an entry is stale as soon as it is "
+    "stored, every hit starts a refresh that takes much longer than the freshness window.",
+    lambda p, rl, crl: (1e-9, (rl + crl) * 6),
+)
+_sttl_proportion(
+    "datastore.soft_ttl_zero",
+    "soft_ttl = hard_ttl = 0: nothing is ever valid, every read goes to the backing store.",
+    lambda p, rl, crl: (0.0, 0.0),
+)
 
 
 # ----------------------------------------------------------------------
@@ -304,70 +440,104 @@ def soft_ttl_refresh(seed, params):
 
 @scenario("datastore.multi_tier", "datastore")
 def multi_tier(seed, params):
-    """L1/L2 CachedStores over one KVStore; L2 is warmed by a CacheWarmer while clients
-    read / write / delete through the MultiTierCache (promotion policy = x.v mod 3)."""
+    """1..4 CachedStore tiers (count 0) over one KVStore; the LAST tier is warmed by a CacheWarmer
+    while clients read / write / delete through the MultiTierCache (promotion = x.v mod 3)."""
     p = P(params, seed)
     v = int(p.x("v", seed))
-    kv = KVStore("backing", read_latency=p.lat(0), write_latency=p.lat(1), delete_latency=p.lat(2))
-    for j, k in enumerate(KEYS):
-        kv.put_sync(k, 100 + j)
-    l1 = CachedStore("l1", kv, cache_capacity=p.cap(2), eviction_policy=_policy(v, p, seed, kv), cache_read_latency=p.lat(3))
-    l2 = CachedStore("l2", kv, cache_capacity=p.cap(2) * 3, eviction_policy=_policy(v + 3, p, seed, kv), cache_read_latency=p.lat(4))
+    keys = _keys(p)
+    kv = _backing(p, keys[:-1] if len(keys) > 1 else keys)  # the last key is missing from the store
+    n_tiers = p.count(0, 2, lo=1, hi=4)
+    tiers = [
+        CachedStore(f"l{t + 1}", kv, cache_capacity=p.cap(2) * (1 + 2 * t), eviction_policy=_policy(v + 3 * t, p, seed, kv), cache_read_latency=p.lat(3 + t))
+        for t in range(n_tiers)
+    ]
     promo = list(PromotionPolicy)[v % 3]
-    mt = MultiTierCache("mt", tiers=[l1, l2], backing_store=kv, promotion_policy=promo)
-    warmer = CacheWarmer("l2warmer", cache=l2, keys_to_warm=list(KEYS), warmup_rate=1.0 / p.lat(5), warmup_latency=p.lat(6))
+    mt = MultiTierCache("mt", tiers=tiers, backing_store=kv, promotion_policy=promo)
+    warmer = CacheWarmer("warmer", cache=tiers[-1], keys_to_warm=list(keys), warmup_rate=1.0 / p.lat(5), warmup_latency=p.lat(6))
     hold = p.hold()
-    warm_time = len(KEYS) * (p.lat(5) + p.lat(0) + p.lat(4)) + hold
+    warm_time = len(keys) * (p.lat(5) + p.lat(0) + p.lat(4)) + hold
+
+    def K(j):
+        return keys[j % len(keys)]
 
     def body(proc, event):
         i = _w(event)
-        k = KEYS[i % 4]
+        k = K(i % 4)
         if i % 4 == 0:
             a = yield from mt.get(k)
             b = yield from mt.get(k)
         elif i % 4 == 1:
             yield from mt.put(k, i)
-            a = yield from mt.get(KEYS[(i + 1) % 4])
-            b = None
+            a = yield from mt.get(K((i + 1) % 4))
+            b = yield from mt.get(MISSING)
         elif i % 4 == 2:
             a = yield from mt.get(k)
             yield hold
             b = yield from mt.delete(k)
+            b = (b, (yield from mt.delete(MISSING)))
         else:
             mt.invalidate(k)
+            mt.invalidate(MISSING)
             a = yield from mt.get(k)
             yield hold
-            b = yield from mt.get(KEYS[4 + i % 2])
-        yield warm_time  # by now the warmer has filled L2 while L1 (small) has evicted
-        c = yield from mt.get(KEYS[(i + 2) % len(KEYS)])
-        d = yield from mt.get(KEYS[(i + 2) % len(KEYS)])
-        proc.log.append((a, b, c, d))
+            b = yield from mt.get(K(4 + i % 2))
+        yield warm_time  # by now the warmer has filled the last tier while L1 (small) has evicted
+        c = yield from mt.get(K(i + 2))
+        d = yield from mt.get(K(i + 2))
+        proc.log.append(str((a, b, c, d)))
         proc.done += 1
 
     arr = p.arrivals(8)
     procs = [Proc(f"w{i}", body) for i in range(len(arr))]
-    sim = make_sim([kv, l1, l2, mt, warmer, *procs], p.end())
+    sim = make_sim([kv, *tiers, mt, warmer, *procs], p.end())
     sim.schedule(warmer.start_warming())  # documented usage: scheduled before the run (t = 0)
     _start(sim, procs, arr)
-    return Scenario(sim, {"mt": mt, "l1": l1, "l2": l2, "warmer": warmer}, "datastore", True, len(arr) + 1, notes=promo.name)
+    comps = {"mt": mt, "warmer": warmer, **{t.name: t for t in tiers}}
+    return Scenario(sim, comps, "datastore", True, len(arr) + 1, notes=f"{promo.name} tiers={n_tiers}")
 
 
 # ----------------------------------------------------------------------
 # ReplicatedStore
 
 
+def _replicated_body(rs, keys, hold):
+    def K(j):
+        return keys[j % len(keys)]
+
+    def body(proc, event):
+        i = _w(event)
+        k = K(i % 2)
+        if i % 3 == 0:
+            ok = yield from rs.put(k, i)
+            val = yield from rs.get(k)
+        elif i % 3 == 1:
+            val = yield from rs.get(k)
+            yield hold
+            ok = yield from rs.put(K(2 + i % 4), i)
+        else:
+            ok = yield from rs.delete(k)
+            val = yield from rs.get(k)
+            val = (val, (yield from rs.get(MISSING)), (yield from rs.delete(MISSING)))
+        proc.log.append(str((ok, val)))
+        proc.done += 1
+
+    return body
+
+
 @scenario("datastore.replicated_quorum", "datastore")
 def replicated_quorum(seed, params):
-    """Three replicas with different latencies, one of them timing out periodically;
-    consistency levels from x.v; same-key reads overlap writes and deletes."""
+    """1..5 replicas (count 0) with different latencies, every third one timing out
+    periodically; consistency levels from x.v; same-key reads overlap writes and deletes."""
     p = P(params, seed)
     v = int(p.x("v", seed))
     levels = [ConsistencyLevel.QUORUM, ConsistencyLevel.ONE, ConsistencyLevel.ALL]
-    reps = [
-        KVStore("r0", read_latency=p.lat(0), write_latency=p.lat(1)),
-        FlakyKV("r1", fail_every=3, read_latency=p.lat(2), write_latency=p.lat(3)),
-        KVStore("r2", read_latency=p.lat(4), write_latency=p.lat(5), capacity=p.cap(2)),
-    ]
+    n = p.count(0, 3, lo=1, hi=5)
+    reps = []
+    for j in range(n):
+        if j % 3 == 1:
+            reps.append(FlakyKV(f"r{j}", fail_every=3, read_latency=p.lat(2 * j), write_latency=p.lat(2 * j + 1)))
+        else:
+            reps.append(KVStore(f"r{j}", read_latency=p.lat(2 * j), write_latency=p.lat(2 * j + 1), capacity=p.cap(2) if j % 3 == 2 else None))
     rs = ReplicatedStore(
         "rs",
         reps,
@@ -376,86 +546,100 @@ def replicated_quorum(seed, params):
         read_timeout=p.lat(6) * 10,
         write_timeout=p.lat(7) * 20,
     )
-    hold = p.hold()
-
-    def body(proc, event):
-        i = _w(event)
-        k = KEYS[i % 2]
-        if i % 3 == 0:
-            ok = yield from rs.put(k, i)
-            val = yield from rs.get(k)
-        elif i % 3 == 1:
-            val = yield from rs.get(k)
-            yield hold
-            ok = yield from rs.put(KEYS[2 + i % 4], i)
-        else:
-            ok = yield from rs.delete(k)
-            val = yield from rs.get(k)
-        proc.log.append((ok, val))
-        proc.done += 1
-
     arr = p.arrivals(8)
-    procs = [Proc(f"w{i}", body) for i in range(len(arr))]
+    procs = [Proc(f"w{i}", _replicated_body(rs, _keys(p), p.hold())) for i in range(len(arr))]
     sim = make_sim([*reps, rs, *procs], p.end())
     _start(sim, procs, arr)
-    return Scenario(sim, {"rs": rs, **{r.name: r for r in reps}}, "datastore", True, len(arr))
+    return Scenario(sim, {"rs": rs, **{r.name: r for r in reps}}, "datastore", True, len(arr), notes=f"replicas={n}")
+
+
+@scenario("datastore.replicated_single_replica", "datastore")
+def replicated_single_replica(seed, params):
+    """ONE replica (quorum = all = one), flaky for odd x.v: a timed-out replica leaves nobody."""
+    p = P(params, seed)
+    v = int(p.x("v", seed))
+    levels = [ConsistencyLevel.QUORUM, ConsistencyLevel.ONE, ConsistencyLevel.ALL]
+    if v % 2:
+        rep = FlakyKV("r0", fail_every=2, read_latency=p.lat(0), write_latency=p.lat(1))
+    else:
+        rep = KVStore("r0", read_latency=p.lat(0), write_latency=p.lat(1), capacity=1)
+    rs = ReplicatedStore("rs", [rep], read_consistency=levels[v % 3], write_consistency=levels[(v // 3) % 3], read_timeout=p.lat(2), write_timeout=p.lat(3))
+    arr = p.arrivals(6)
+    procs = [Proc(f"w{i}", _replicated_body(rs, _keys(p, default=3), p.hold())) for i in range(len(arr))]
+    sim = make_sim([rep, rs, *procs], p.end())
+    _start(sim, procs, arr)
+    return Scenario(sim, {"rs": rs, "r0": rep}, "datastore", True, len(arr))
 
 
 # ----------------------------------------------------------------------
 # ShardedStore
 
 
-def _strategy(v: int, seed: int):
-    return [HashSharding(), RangeSharding(), RangeSharding(boundaries=["h", "q"]), ConsistentHashSharding(virtual_nodes=8, seed=seed)][v % 4]
+def _strategy(v: int, seed: int, n_shards: int):
+    bounds = ["d", "i", "n", "r", "u", "w", "x", "y", "z", "{", "|"][: max(0, n_shards - 1)]
+    return [HashSharding(), RangeSharding(), RangeSharding(boundaries=bounds), ConsistentHashSharding(virtual_nodes=8, seed=seed)][v % 4]
 
 
-@scenario("datastore.sharded_scatter_gather", "datastore")
-def sharded_scatter_gather(seed, params):
-    """ShardedStore over KVStore shards of unequal speed; scatter_gather sweeps all keys
-    while point writes / deletes on the same keys are in progress (strategy = x.v mod 4)."""
-    p = P(params, seed)
-    v = int(p.x("v", seed))
-    n_shards = 3
-    shards = [KVStore(f"s{j}", read_latency=p.lat(2 * j), write_latency=p.lat(2 * j + 1), capacity=p.cap(2) + 1) for j in range(n_shards)]
-    ss = ShardedStore("sharded", shards, sharding_strategy=_strategy(v, seed))
-    hold = p.hold()
+def _sharded_body(ss, keys, hold):
+    def K(j):
+        return keys[j % len(keys)]
 
     def body(proc, event):
         i = _w(event)
-        k = KEYS[i % len(KEYS)]
+        k = K(i)
         if i % 4 == 0:
             yield from ss.put(k, i)
             r = yield from ss.get(k)
         elif i % 4 == 1:
-            r = yield from ss.scatter_gather(list(KEYS))
-            r = sorted(r)
+            r0 = yield from ss.scatter_gather([])  # nothing to gather
+            r1 = yield from ss.scatter_gather(list(keys))
+            r2 = yield from ss.scatter_gather([MISSING])  # one key, stored nowhere
+            r = (r0, sorted(r1), r2)
         elif i % 4 == 2:
             yield from ss.put(k, i)
             yield hold
             r = yield from ss.delete(k)
+            r = (r, (yield from ss.delete(k)), (yield from ss.get(k)))
         else:
             r = yield from ss.get(k)
             yield from ss.put(k, -i)
-            r2 = yield from ss.scatter_gather([k, KEYS[(i + 1) % len(KEYS)]])
-            r = (r, sorted(r2))
+            r2 = yield from ss.scatter_gather([k])  # exactly one key
+            r3 = yield from ss.scatter_gather([k, K(i + 1), MISSING, k])
+            r = (r, sorted(r2), sorted(r3))
         proc.log.append(str(r))
         proc.done += 1
 
+    return body
+
+
+@scenario("datastore.sharded_scatter_gather", "datastore")
+def sharded_scatter_gather(seed, params):
+    """ShardedStore over 1..12 KVStore shards (count 0) of unequal speed; scatter_gather sweeps
+    all / one / no keys while point writes / deletes on the same keys are in progress
+    (strategy = x.v mod 4)."""
+    p = P(params, seed)
+    v = int(p.x("v", seed))
+    n_shards = p.count(0, 3, lo=1, hi=12)
+    shards = [KVStore(f"s{j}", read_latency=p.lat(2 * j), write_latency=p.lat(2 * j + 1), capacity=p.cap(2) + 1) for j in range(n_shards)]
+    ss = ShardedStore("sharded", shards, sharding_strategy=_strategy(v, seed, n_shards))
     arr = p.arrivals(8)
-    procs = [Proc(f"w{i}", body) for i in range(len(arr))]
+    procs = [Proc(f"w{i}", _sharded_body(ss, _keys(p), p.hold())) for i in range(len(arr))]
     sim = make_sim([*shards, ss, *procs], p.end())
     _start(sim, procs, arr)
-    return Scenario(sim, {"sharded": ss}, "datastore", True, len(arr), notes=type(ss.sharding_strategy).__name__)
+    return Scenario(sim, {"sharded": ss}, "datastore", True, len(arr), notes=f"{type(ss.sharding_strategy).__name__} shards={n_shards}")
 
 
 @scenario("datastore.cached_sharded_replicated", "datastore")
 def cached_sharded_replicated(seed, params):
-    """Composite: CachedStore -> ShardedStore -> ReplicatedStore -> KVStore replicas."""
+    """Composite: CachedStore -> ShardedStore -> ReplicatedStore -> KVStore replicas
+    (groups = count 0, replicas per group = count 1)."""
     p = P(params, seed)
     v = int(p.x("v", seed))
+    n_groups = p.count(0, 2, lo=1, hi=3)
+    n_reps = p.count(1, 2, lo=1, hi=3)
     kvs, groups = [], []
-    for g in range(2):
-        reps = [KVStore(f"g{g}r{j}", read_latency=p.lat(g * 2 + j), write_latency=p.lat(g * 2 + j + 3)) for j in range(2)]
+    for g in range(n_groups):
+        reps = [KVStore(f"g{g}r{j}", read_latency=p.lat(g * 2 + j), write_latency=p.lat(g * 2 + j + 3)) for j in range(n_reps)]
         kvs += reps
         groups.append(
             ReplicatedStore(
@@ -467,13 +651,76 @@ def cached_sharded_replicated(seed, params):
                 write_timeout=p.lat(7) * 10,
             )
         )
-    ss = ShardedStore("sharded", groups, sharding_strategy=_strategy(v, seed)) if v % 4 != 2 else ShardedStore("sharded", groups)
+    ss = ShardedStore("sharded", groups, sharding_strategy=_strategy(v, seed, n_groups)) if v % 4 != 2 else ShardedStore("sharded", groups)
     cs = CachedStore("front", ss, cache_capacity=p.cap(2), eviction_policy=_policy(v + 5, p, seed, ss), cache_read_latency=p.lat(2), write_through=True)
     arr = p.arrivals(8)
-    procs = [Proc(f"w{i}", _cached_workload(cs, p.hold())) for i in range(len(arr))]
+    procs = [Proc(f"w{i}", _cached_workload(cs, _keys(p), p.hold())) for i in range(len(arr))]
     sim = make_sim([*kvs, *groups, ss, cs, *procs], p.end())
     _start(sim, procs, arr)
-    return Scenario(sim, {"front": cs, "sharded": ss, "group0": groups[0], "group1": groups[1]}, "datastore", True, len(arr))
+    return Scenario(sim, {"front": cs, "sharded": ss, **{g.name: g for g in groups}}, "datastore", True, len(arr))
+
+
+# ----------------------------------------------------------------------
+# empty structures
+
+
+@scenario("datastore.empty_structures", "datastore")
+def empty_structures(seed, params):
+    """Every store starts EMPTY and is hit with reads / deletes / gathers / flushes that match
+    nothing before the first put (worker i works on store i mod 6), then used normally."""
+    p = P(params, seed)
+    v = int(p.x("v", seed))
+    kv = _backing(p, [], name="kv", fill=False)
+    back = _backing(p, [], name="backing", fill=False)
+    cs = CachedStore("cache", back, cache_capacity=1, eviction_policy=_policy(v, p, seed, None), cache_read_latency=p.lat(3), write_through=False)
+    st = SoftTTLCache("sttl", back, soft_ttl=p.lat(4), hard_ttl=p.lat(4) * 3, cache_capacity=1, cache_read_latency=p.lat(3))
+    tier = CachedStore("l1", back, cache_capacity=1, eviction_policy=_policy(v + 1, p, seed, None), cache_read_latency=p.lat(3))
+    mt = MultiTierCache("mt", tiers=[tier], backing_store=back, promotion_policy=list(PromotionPolicy)[v % 3])
+    rep = KVStore("r0", read_latency=p.lat(5), write_latency=p.lat(6))
+    rs = ReplicatedStore("rs", [rep], read_timeout=p.lat(5) * 4, write_timeout=p.lat(6) * 4)
+    n_shards = p.count(0, 2, lo=1, hi=5)
+    shards = [KVStore(f"s{j}", read_latency=p.lat(j), write_latency=p.lat(j + 1)) for j in range(n_shards)]
+    ss = ShardedStore("sharded", shards, sharding_strategy=_strategy(v, seed, n_shards))
+    stores = [kv, cs, st, mt, rs, ss]
+    hold = p.hold()
+
+    def body(proc, event):
+        i = _w(event)
+        s = stores[i % len(stores)]
+        k = KEYS[i % 2]
+        out = [(yield from s.get(k))]  # empty store
+        if hasattr(s, "delete"):
+            out.append((yield from s.delete(k)))
+        if s is ss:
+            out.append((yield from ss.scatter_gather([])))
+            out.append((yield from ss.scatter_gather([k])))
+        if s is cs:
+            out.append((yield from cs.flush()))
+            cs.invalidate(k)
+            cs.invalidate_all()
+        if s is st:
+            st.invalidate(k)
+            st.invalidate_all()
+        if s is mt:
+            mt.invalidate(k)
+            mt.invalidate_all()
+        yield hold
+        yield from s.put(k, i)
+        out.append((yield from s.get(k)))
+        if hasattr(s, "delete"):
+            out.append((yield from s.delete(k)))
+            out.append((yield from s.delete(k)))
+        out.append((yield from s.get(k)))
+        if s is cs:
+            out.append((yield from cs.flush()))
+        proc.log.append(str(out))
+        proc.done += 1
+
+    arr = p.arrivals(12)
+    procs = [Proc(f"w{i}", body) for i in range(len(arr))]
+    sim = make_sim([kv, back, cs, st, tier, mt, rep, rs, *shards, ss, *procs], p.end())
+    _start(sim, procs, arr)
+    return Scenario(sim, {"kv": kv, "cache": cs, "sttl": st, "mt": mt, "rs": rs, "sharded": ss}, "datastore", True, len(arr))
 
 
 # ----------------------------------------------------------------------
@@ -487,7 +734,14 @@ def _db_body(db, hold, late_after=None, late_by=0.0):
             yield late_by  # arrives once the first `late_after` clients own the whole pool
         if i % 4 == 0:
             r = yield from db.execute(f"SELECT * FROM t WHERE id = {i}")
-            proc.log.append(("q", r))
+            r0 = yield from db.execute("")  # empty query
+            proc.log.append(("q", r, r0))
+        elif i % 8 == 5:
+            tx = yield from db.begin_transaction()
+            yield from tx.commit()  # empty transaction
+            tx2 = yield from db.begin_transaction()
+            yield from tx2.rollback()  # empty transaction
+            proc.log.append(("empty-tx", tx.state.name, tx2.state.name))
         else:
             tx = yield from db.begin_transaction()
             r1 = yield from tx.execute(f"INSERT INTO t VALUES ({i})")
@@ -497,6 +751,7 @@ def _db_body(db, hold, late_after=None, late_by=0.0):
                 yield from tx.rollback()
             else:
                 yield from tx.execute("UPDATE t SET x = 1")
+                r3 = yield from tx.execute("   ")  # blank statement inside a transaction
                 yield from tx.commit()
             proc.log.append(("tx", tx.state.name, r1, r2))
             if i % 4 == 2:  # connection re-use straight after release
@@ -546,14 +801,27 @@ def database_callable_latency(seed, params):
     return Scenario(sim, {"db": db}, "datastore", True, len(arr))
 
 
+@scenario("datastore.database_slow_connect_single", "datastore")
+def database_slow_connect_single(seed, params):
+    """max_connections=1 and connection_latency 50x the query latency (commit / rollback even
+    shorter): clients that arrive while the only connection is still being established."""
+    p = P(params, seed)
+    q = p.lat(0)
+    db = Database("db", max_connections=1, query_latency=q, connection_latency=q * 50, commit_latency=max(q / 4, 1e-9), rollback_latency=max(q / 8, 1e-9))
+    arr = p.arrivals(5)
+    # the first client opens the connection; the others arrive while / after it is established
+    procs = [Proc(f"c{i}", _db_body(db, min(p.hold(), q * 10), late_after=1, late_by=q * (25 if i % 2 else 75))) for i in range(len(arr))]
+    sim = make_sim([db, *procs], p.end())
+    _start(sim, procs, arr)
+    return Scenario(sim, {"db": db}, "datastore", True, len(arr))
+
+
 # ----------------------------------------------------------------------
 # CacheWarmer
 
 
-def _warm_setup(p, seed, kind):
-    kv = KVStore("backing", read_latency=p.lat(0), write_latency=p.lat(1), delete_latency=p.lat(2))
-    for j, k in enumerate(KEYS[:-1]):  # the last key is missing -> keys_failed
-        kv.put_sync(k, 100 + j)
+def _warm_setup(p, seed, kind, keys):
+    kv = _backing(p, keys[:-1] if len(keys) > 1 else keys)  # the last key is missing -> keys_failed
     if kind % 2 == 0:
         cache = CachedStore("cache", kv, cache_capacity=p.cap(2) + 2, eviction_policy=_policy(kind // 2, p, seed, kv), cache_read_latency=p.lat(3))
     else:
@@ -566,21 +834,22 @@ def cache_warmer_cold_start(seed, params):
     """Documented usage: start_warming() scheduled before the run; clients read and write the
     same keys while the warmer walks its key list (callable key provider)."""
     p = P(params, seed)
-    kv, cache = _warm_setup(p, seed, int(p.x("v", seed)))
+    klist = _keys(p)
+    kv, cache = _warm_setup(p, seed, int(p.x("v", seed)), klist)
     rng = random.Random(seed)
-    keys = list(KEYS)
+    keys = list(klist)
     rng.shuffle(keys)
     warmer = CacheWarmer("warmer", cache=cache, keys_to_warm=lambda: list(keys), warmup_rate=1.0 / p.lat(5), warmup_latency=p.lat(6))
     hold = p.hold()
 
     def body(proc, event):
         i = _w(event)
-        k = KEYS[i % 3]
+        k = klist[i % min(3, len(klist))]
         a = yield from cache.get(k)
         if i % 2:
             yield from cache.put(k, i)
         yield hold
-        b = yield from cache.get(KEYS[(i + 3) % len(KEYS)])
+        b = yield from cache.get(klist[(i + 3) % len(klist)])
         proc.log.append((a, b, round(warmer.progress, 3)))
         proc.done += 1
 
@@ -598,8 +867,9 @@ def cache_warmer_rewarm(seed, params):
     entity flushes the cache at t > 0 and schedules the event returned by
     `warmer.start_warming()` exactly as returned."""
     p = P(params, seed)
-    kv, cache = _warm_setup(p, seed, int(p.x("v", seed)))
-    warmer = CacheWarmer("warmer", cache=cache, keys_to_warm=list(KEYS), warmup_rate=1.0 / p.lat(5), warmup_latency=p.lat(6))
+    klist = _keys(p)
+    kv, cache = _warm_setup(p, seed, int(p.x("v", seed)), klist)
+    warmer = CacheWarmer("warmer", cache=cache, keys_to_warm=list(klist), warmup_rate=1.0 / p.lat(5), warmup_latency=p.lat(6))
     hold = p.hold()
 
     def operator(proc, event):
@@ -612,9 +882,9 @@ def cache_warmer_rewarm(seed, params):
 
     def body(proc, event):
         i = _w(event)
-        k = KEYS[i % 3]
+        k = klist[i % min(3, len(klist))]
         a = yield from cache.get(k)
-        yield hold * 2 + len(KEYS) * (p.lat(5) + p.lat(0))
+        yield hold * 2 + len(klist) * (p.lat(5) + p.lat(0))
         b = yield from cache.get(k)
         proc.log.append((a, b, warmer.is_complete))
         proc.done += 1
@@ -627,3 +897,97 @@ def cache_warmer_rewarm(seed, params):
     _start(sim, procs, arr)
     sim.schedule(ev(max(arr), "start", op, worker=-1))
     return Scenario(sim, {"warmer": warmer, "cache": cache}, "datastore", True, len(arr) + 2)
+
+
+@scenario("datastore.cache_warmer_empty_keys", "datastore")
+def cache_warmer_empty_keys(seed, params):
+    """Nothing to warm: an empty key list (scheduled before the run), a callable that returns []
+    (started in the middle of the run) and a single-key list whose key does not exist; the
+    warm-up rate is far above / below the cache latency by x.v parity."""
+    p = P(params, seed)
+    v = int(p.x("v", seed))
+    kv, cache = _warm_setup(p, seed, v, _keys(p, default=2))
+    rate = min(1000.0 / p.lat(5), 1e9) if v % 2 else (0.05 / p.lat(5))
+    w_empty = CacheWarmer("warm_empty", cache=cache, keys_to_warm=[], warmup_rate=rate, warmup_latency=p.lat(6))
+    w_call = CacheWarmer("warm_callable", cache=cache, keys_to_warm=lambda: [], warmup_rate=rate, warmup_latency=p.lat(6))
+    w_miss = CacheWarmer("warm_missing", cache=cache, keys_to_warm=[MISSING], warmup_rate=rate, warmup_latency=p.lat(6))
+    hold = p.hold()
+
+    def operator(proc, event):
+        yield hold
+        proc.done += 1
+        return [w_call.start_warming(), w_miss.start_warming()]
+
+    def body(proc, event):
+        a = yield from cache.get(KEYS[0])
+        yield hold * 2
+        b = yield from cache.get(MISSING)
+        proc.log.append((a, b, w_empty.is_complete, w_call.is_complete, w_miss.is_complete, w_empty.progress))
+        proc.done += 1
+
+    arr = p.arrivals(3)
+    procs = [Proc(f"w{i}", body) for i in range(len(arr))]
+    op = Proc("operator", operator)
+    sim = make_sim([kv, cache, w_empty, w_call, w_miss, op, *procs], p.end())
+    sim.schedule(w_empty.start_warming())
+    _start(sim, procs, arr)
+    sim.schedule(ev(min(arr), "start", op, worker=-1))
+    comps = {"warm_empty": w_empty, "warm_callable": w_call, "warm_missing": w_miss, "cache": cache}
+    return Scenario(sim, comps, "datastore", True, len(arr) + 2)
+
+
+# ----------------------------------------------------------------------
+# default construction
+
+
+@scenario("datastore.default_construction", "datastore")
+def default_construction(seed, params):
+    """Every component built with its DEFAULT arguments wherever it has one (latencies, timeouts,
+    consistency levels, sharding strategy, promotion policy, warm-up rate, pool size); worker i
+    uses store i mod 7; only the workload comes from the parameters."""
+    p = P(params, seed)
+    kv = KVStore("kv")
+    back = KVStore("backing")
+    for j, k in enumerate(KEYS[:4]):
+        back.put_sync(k, 100 + j)
+    cs = CachedStore("cache", back, cache_capacity=2, eviction_policy=LRUEviction())
+    st = SoftTTLCache("sttl", back, soft_ttl=0.002, hard_ttl=0.02)
+    mt = MultiTierCache("mt", tiers=[cs], backing_store=back)
+    reps = [KVStore(f"r{j}") for j in range(3)]
+    rs = ReplicatedStore("rs", reps)
+    shards = [KVStore(f"s{j}") for j in range(2)]
+    ss = ShardedStore("sharded", shards)
+    db = Database("db")
+    warmer = CacheWarmer("warmer", cache=st, keys_to_warm=list(KEYS[:5]))
+    stores = [kv, cs, st, mt, rs, ss]
+    hold = p.hold()
+
+    def body(proc, event):
+        i = _w(event)
+        if i % 7 == 6:
+            r = yield from db.execute("SELECT 1")
+            tx = yield from db.begin_transaction()
+            yield from tx.execute("UPDATE t SET x = 1")
+            yield from tx.commit()
+            proc.log.append(str(r))
+        else:
+            s = stores[i % 7]
+            k = KEYS[i % 4]
+            a = yield from s.get(k)
+            yield from s.put(k, i)
+            yield hold
+            b = yield from s.get(k)
+            c = yield from s.get(MISSING)
+            d = (yield from s.delete(k)) if hasattr(s, "delete") else None
+            if s is ss:
+                d = (d, sorted((yield from ss.scatter_gather(list(KEYS[:4])))))
+            proc.log.append(str((a, b, c, d)))
+        proc.done += 1
+
+    arr = p.arrivals(14)
+    procs = [Proc(f"w{i}", body) for i in range(len(arr))]
+    sim = make_sim([kv, back, cs, st, mt, *reps, rs, *shards, ss, db, warmer, *procs], p.end())
+    sim.schedule(warmer.start_warming())
+    _start(sim, procs, arr)
+    comps = {"kv": kv, "cache": cs, "sttl": st, "mt": mt, "rs": rs, "sharded": ss, "db": db, "warmer": warmer}
+    return Scenario(sim, comps, "datastore", True, len(arr) + 1)
